@@ -30,6 +30,9 @@ CHECKS["C14"] = dict(category="exploration", technique="exhaustive enumeration o
 CHECKS["C05"] = dict(category="exploration", technique="Hypothesis round-trip property test over a wide adversarial value domain (codec route and real-file route under 8 csv dialects), cross-checked by an independent CSV decoder; confusable-pair injectivity",
     text="Generated valid points (arbitrary Unicode mixed with reserved words/prefixes and CSV metacharacters, every float64 but NaN, unbounded ints, microsecond UTC times 1700-2240, both key-prefix styles) are serialized and read back through the codec and through real files (8 dialects, reopen with a fresh instance, optional rewrite in between); the result must be strictly equal (tags stay tags, fields stay fields, identical IEEE bits for floats) and an independent decoder must read the same file the same way; confusable pairs must serialize to different rows. Three format-level defects are known findings and excluded by construction.",
     note="Trusts Python's csv module (rows it cannot round-trip itself under a dialect are discarded and counted) and the independent decoder csvref; NaN excluded.", design="3/C05")
+CHECKS["C08"] = dict(category="exploration", technique="Hypothesis-generated datetimes and time updates under 4 process time zones (time.tzset per worker), oracle: instants computed independently with zoneinfo and compared exactly",
+    text="For each process zone in {UTC, America/Los_Angeles, Australia/Lord_Howe, Asia/Kathmandu} generated cases insert aware datetimes (any fixed offset, IANA zones) and naive datetimes concentrated in DST gaps and folds, with ties and adjacent-microsecond neighbours, years 1700-2240; apply static/callable time updates and reopen; after each stage returned times, get_timestamps (index and scan path), all six TimeQuery operators with right-hand sides in arbitrary zones and the stable time order are compared with independently computed instants on {CSV, memory} x {auto_index on, off}.",
+    note="Trusts zoneinfo/tzdata and PEP 495 semantics for the expected instants; the process zone is switched with time.tzset() inside the worker (equivalent to starting the interpreter with TZ set, as datetime reads the C library's zone state at call time).", design="3/C08")
 NA = {}
 checks = []
 for p in props:
